@@ -11,6 +11,7 @@ structure Case where
   blocking : Bool := true
   total : Nat := 0
   chunk : Nat := 1
+  probe : Bool := false    -- every wait is polled under a throw-away waker first
   ops : List String := []
 
 structure World where
@@ -35,7 +36,10 @@ def settle (c : Case) (w : World) : Nat → World
       -- the task reads until WouldBlock or until it has everything
       if w.s.got ≥ c.total then { (act w .dropAdapter) with done := true, running := false }
       else if w.s.avail ≥ 1 then settle c (act w (.taskRead (min c.chunk (c.total - w.s.got)))) fuel
-      else settle c { (act (act w .taskBlock) .taskArm) with running := false } fuel
+      else
+        let w := act w .taskBlock
+        let w := if c.probe then act w .probeArm else w
+        settle c { (act w .taskArm) with running := false } fuel
     else if w.s.woken = 1 then settle c { (act w .taskRun) with running := true } fuel
     else if w.s.queued = 1 then settle c (act w .loopReport) fuel
     else w
@@ -73,6 +77,7 @@ def stepLine (c : Case) (line : String) : Case × List String :=
   | ["blocking", b] => ({ c with blocking := b == "1" }, [])
   | ["total", t, "chunk", k] => ({ c with total := t.toNat?.getD 0, chunk := max 1 (k.toNat?.getD 1) }, [])
   | ["finish", _] => (c, [])
+  | ["probe", b] => ({ c with probe := b == "1" }, [])
   | ["end"] => (c, runCase c)
   | _ => ({ c with ops := c.ops ++ [line] }, [])
 
